@@ -18,12 +18,26 @@
 package queryserver
 
 import (
+	"runtime/debug"
+
 	"github.com/siglens/siglens/pkg/hooks"
+	log "github.com/sirupsen/logrus"
 	"github.com/valyala/fasthttp"
 )
 
 func (hs *queryserverCfg) Recovery(next func(ctx *fasthttp.RequestCtx)) func(ctx *fasthttp.RequestCtx) {
 	fn := func(ctx *fasthttp.RequestCtx) {
+		// a panic in a handler must not end the process: answer this request with an error and keep serving
+		defer func() {
+			if r := recover(); r != nil {
+				log.Errorf("queryserverCfg.Recovery: panic while handling %s %s: %v\n%s", ctx.Method(), ctx.Path(), r, debug.Stack())
+				ctx.Response.ResetBody()
+				ctx.SetStatusCode(fasthttp.StatusInternalServerError)
+				ctx.SetContentType("application/json")
+				ctx.SetBodyString(`{"error":"Internal server error"}`)
+			}
+		}()
+
 		if hook := hooks.GlobalHooks.QueryMiddlewareRecoveryHook; hook != nil {
 			err := hook(ctx)
 			if err != nil {
